@@ -258,9 +258,18 @@ def show_int(e, ty="int32"):
 # ---------------------------------------------------------------- program
 def derive_line(grp):
     """one derive attribute; the pseudo entry `//` puts a comment after it and a comment line below it (trivia, no meaning)"""
-    names = [n for n in grp.split() if n != "//"]
+    names = [n for n in grp.split() if not n.startswith("//")]
     line = "#[derive(" + ", ".join(names) + ")]"
-    return line + (" // derived\n// a comment between the attribute and the declaration" if "//" in grp.split() else "")
+    styles = [n for n in grp.split() if n.startswith("//")]
+    if not styles:
+        return line
+    # the comment's text is trivia whatever it contains: brackets, attribute-like text, quotes, parentheses
+    text = {"//": ("derived", "a comment between the attribute and the declaration"),
+            "//]": ("see note [1]", "payload order is [from, to]"),
+            "//#": ("like #[derive(Nothing)] but not", "#[derive(ToNothing)]"),
+            "//)": ("closes ) } ] early", "\"quoted\" and 'single' ( { ["),
+            }[styles[0]]
+    return line + f" // {text[0]}\n// {text[1]}"
 
 
 class Program:
@@ -569,3 +578,15 @@ def render_pat(p):
     if k == "pstruct":
         return p["n"] + " { " + ", ".join(f["f"] + ": " + render_pat(f["p"]) for f in p["fs"]) + " }"
     raise ValueError("pattern " + k)
+
+
+class TextProgram(Program):
+    """A program given as goml text (files of other packages go into the case's `extra_files`).  Its meaning is stated as the
+    lines an accepted program must print: the semantic record is a `main` that prints them, so the usual comparison applies."""
+    def __init__(self, name, text, expected_lines=()):
+        super().__init__(name)
+        self.text = text
+        self.fn("main", [], UNIT, Block([println(Str(l)) for l in expected_lines], Unit))
+
+    def render(self):
+        return self.text
